@@ -91,6 +91,9 @@ func runC15(c *Ctx) {
 					c.Violate(fmt.Sprintf("path-version matcher accepted=%v, expected %v", got, wantOK), det)
 				case got:
 					c.Class("path_accept")
+					if c.WantSample("path-version") && len(orig) > 1 {
+						c.Sample("path-version", det)
+					}
 					wantParams := map[string]string{"pre": "kept"}
 					if param != "" {
 						wantParams[param] = wantVal
@@ -184,6 +187,9 @@ func runC15(c *Ctx) {
 				c.Violate(fmt.Sprintf("header-version matcher accepted=%v, expected %v", got, wantOK), det)
 			case got:
 				c.Class("header_accept")
+				if c.WantSample("header-version") {
+					c.Sample("header-version", det)
+				}
 				wantParams := map[string]string{"pre": "kept"}
 				if param != "" {
 					wantParams[param] = wantVal
